@@ -129,7 +129,8 @@ def jacobian(h, which="rb", k=0, seed=0):
 def equivariance(h, which="rb", seed=0):
     from cardillo.solver import Newton
     from cardillo.math import Exp_SO3_quat, quatprod
-    h.option("exact_const_sqrt", True)
+    if which != "rb":
+        h.option("exact_const_sqrt", True)
     c = h.vec("mc", 3)
     # unit quaternion of the rigid motion in stereographic coordinates (the quaternion rows g_S = |P|^2 - 1 are
     # invariant only under unit quaternions)
@@ -179,6 +180,7 @@ def cases(tier, seed):
         dirs = range(n) if tier == "thorough" else sorted(int(x) for x in rng.choice(n, size=3, replace=False))
         for k in dirs:
             cs.append(Case(f"jac/{which}/dir{k}", jacobian, dict(which=which, k=k, seed=seed), timeout=T, hard=T * 8))
-        if which != "rod_mixed" or tier == "thorough":
-            cs.append(Case(f"equivariance/{which}", equivariance, dict(which=which, seed=seed), timeout=T, hard=T * 10))
+        # the rod's equivariance needs exact algebraic constants for the reference tangent lengths (sqrt atoms): thorough tier
+        if which == "rb" or tier == "thorough":
+            cs.append(Case(f"equivariance/{which}", equivariance, dict(which=which, seed=seed), timeout=T, hard=T * 4))
     return cs
